@@ -46,6 +46,24 @@ Pairs == {<<i, j>> \in (DOMAIN Obs) \X (DOMAIN Obs) :
 
 Bad == {p \in Pairs : ~Holds(Obs[p[1]], Obs[p[2]])}
 
-ASSUME PrintT(<<"PAIRS", Cardinality(Pairs), "BAD", Cardinality(Bad)>>)
-ASSUME ndJsonSerialize(IOEnv.OUT, [i \in 1..Cardinality(Bad) |-> Why(Obs[SetToSeq(Bad)[i][1]], Obs[SetToSeq(Bad)[i][2]])])
+\* ---- relations between ONE alternative run and ALL reference runs named in its `parts' field
+\* "UnionOfParts": what a run over several inputs reports is the union of what the runs over each input alone
+\* report, and it fails (exit status) iff one of them fails.
+Alts == {j \in DOMAIN Obs : Obs[j].role = "alt"}
+PartsOf(j) == {i \in DOMAIN Obs : Obs[i].role = "ref" /\ \E k \in DOMAIN Obs[j].parts : Obs[j].parts[k] = Obs[i].name}
+UnionKeys(j) == UNION {KeySet(Obs[i]) : i \in PartsOf(j)}
+MaxExit(j) == IF \E i \in PartsOf(j) : Obs[i].exit # 0
+              THEN (CHOOSE e \in {Obs[i].exit : i \in PartsOf(j)} : e # 0) ELSE 0
+UnionHolds(j) == KeySet(Obs[j]) = UnionKeys(j) /\ Obs[j].exit = MaxExit(j)
+BadU == {j \in Alts : ~UnionHolds(j)}
+WhyU(j) == [group |-> Obs[j].group, ref |-> "union of parts", alt |-> Obs[j].name, rel |-> Params.rel,
+            onlyRef |-> SetToSeq(UnionKeys(j) \ KeySet(Obs[j])), onlyAlt |-> SetToSeq(KeySet(Obs[j]) \ UnionKeys(j)),
+            exitRef |-> MaxExit(j), exitAlt |-> Obs[j].exit]
+
+IsUnion == Params.rel = "UnionOfParts"
+
+ASSUME IF IsUnion THEN PrintT(<<"PAIRS", Cardinality(Alts), "BAD", Cardinality(BadU)>>)
+       ELSE PrintT(<<"PAIRS", Cardinality(Pairs), "BAD", Cardinality(Bad)>>)
+ASSUME IF IsUnion THEN ndJsonSerialize(IOEnv.OUT, [i \in 1..Cardinality(BadU) |-> WhyU(SetToSeq(BadU)[i])])
+       ELSE ndJsonSerialize(IOEnv.OUT, [i \in 1..Cardinality(Bad) |-> Why(Obs[SetToSeq(Bad)[i][1]], Obs[SetToSeq(Bad)[i][2]])])
 =============================================================================
